@@ -233,6 +233,36 @@ def special(acc, tier):
             if x.result is not None and "sig" in x.result.values:
                 acc.violation({"symptom": "emit-name-in-values", "family": "emit"}, {"kind": "emit", "select": sel, "runner": runner, "program": p}, "emit-only output returned as a value")
             acc.key(("emit", runner, repr(sel)))
+    # on_missing through runner.map (every item is a run: the policy applies to each item), both runners, both error modes
+    for dec in ("p", "END"):
+        for sel in (["x0"], ["y0"], ["x0", "s0"]):
+            for om in ("ignore", "warn", "error"):
+                for eh in ("raise", "continue"):
+                    views = {}
+                    for runner in ("sync", "async"):
+                        p = T.set_async(T.route3(True), runner == "async")
+                        p["nodes"][1]["behav"] = {"seq": [dec]}
+                        x = execute(p, {"e0": [["prov", 0], ["prov", 1]]}, runner=runner, h=H(), method="map", map_over="e0", select=sel, on_missing=om, error_handling=eh)
+                        acc.evaluations += 1
+                        nwarn = sum(1 for w_ in x.warnings if "Requested outputs not found" in w_)
+                        if x.exc is not None:
+                            views[runner] = ("raised", type(x.exc).__name__, nwarn > 0)
+                        else:
+                            views[runner] = ("list", tuple((r.status.value, type(r.error).__name__ if r.error is not None else None, tuple(sorted(r.values))) for r in x.result), nwarn > 0)
+                    produced = {"a0", "s0"} | ({"x0"} if dec == "p" else set())
+                    unprod = [o for o in sel if o not in produced]
+                    w_ = {"kind": "map-on_missing", "decision": dec, "select": sel, "on_missing": om, "eh": eh}
+                    acc.key(("map-on_missing", dec, tuple(sel), om, eh))
+                    for runner, v in views.items():
+                        silent_ok = v[0] == "list" and all(st == "completed" for st, _, _ in v[1]) and not v[2]
+                        if unprod and om == "error" and silent_ok:
+                            acc.violation({"symptom": "on_missing-error-not-raised", "family": "map", "runner": runner}, w_, f"runner.map ({runner}, error_handling={eh}) with select={sel}, on_missing='error', unproduced {unprod}: every item completed silently")
+                        if unprod and om == "warn" and not v[2]:
+                            acc.violation({"symptom": "on_missing-warn-count", "family": "map", "runner": runner}, w_, f"runner.map ({runner}) with select={sel}, on_missing='warn', unproduced {unprod}: no warning")
+                        if (not unprod or om == "ignore") and not silent_ok:
+                            acc.violation({"symptom": "on_missing-spurious" if not unprod else "on_missing-ignore-not-silent", "family": "map", "runner": runner}, w_, f"runner.map ({runner}) with select={sel}, on_missing={om!r}, unproduced {unprod}: {jsonable(v)}")
+                    if views["sync"] != views["async"]:
+                        acc.violation({"symptom": "map-on_missing-differs-between-runners", "family": "map"}, w_, f"runner.map with select={sel}, on_missing={om!r}, error_handling={eh}: sync gives {jsonable(views['sync'])}, async gives {jsonable(views['async'])}")
     # output names that are prefixes / substrings of one another, selected with the STRING form of select (run-time, graph-level and
     # as the selection a nested graph exposes): the selection is a set of names, never a substring test
     names = ["x", "xy", "xyz", "y"]
